@@ -164,8 +164,19 @@ impl<'w> DocsRun<'w> {
                 Ok(p) => policy_json(&p),
                 Err(_) => json!("ERR"),
             };
+            // news detection against a fixed report (authors 1 and 2 at timestamp 1 = older than or equal to anything held):
+            // the number of authors the report has news for = those of the two we hold nothing of
+            let news: Value = {
+                let mut report = iroh_docs::AuthorHeads::default();
+                report.insert(w.author(1).id(), 1);
+                report.insert(w.author(2).id(), 1);
+                match store.has_news_for_us(id, &report) {
+                    Ok(n) => json!(n.map(|x| x.get()).unwrap_or(0)),
+                    Err(_) => json!(-1),
+                }
+            };
             docs.push(json!({"cap": caps.get(&id.to_bytes()).copied().unwrap_or("none"),
-                             "st": st, "heads": heads, "bykey": bykey, "peers": peers, "pol": pol}));
+                             "st": st, "heads": heads, "bykey": bykey, "peers": peers, "pol": pol, "news": news}));
         }
         let hashes: Value = match store.content_hashes() {
             Ok(it) => {
@@ -222,7 +233,24 @@ impl<'w> DocsRun<'w> {
                     ("write", None) => return None,
                     _ => Capability::Read(self.t.id(d)),
                 };
-                let res = self.store.as_mut().unwrap().import_namespace(cap);
+                // "via": "new_replica" - the write secret arrives through Store::new_replica (import + open in one call)
+                let via_new = op["via"] == "new_replica" && matches!(cap, Capability::Write(_));
+                let res = if via_new {
+                    let secret = self.t.secret(d).unwrap().clone();
+                    let was_open = self.infos.contains_key(&d);
+                    let store = self.store.as_mut().unwrap();
+                    let r = store.new_replica(secret).map(|_replica| iroh_docs::store::ImportNamespaceOutcome::Inserted);
+                    if !was_open {
+                        store.close_replica(self.t.id(d));
+                    }
+                    // (which outcome import_namespace reported inside is not visible here: bring an open handle up to date)
+                    if let (Ok(_), Some(info), Some(s)) = (&r, self.infos.get_mut(&d), self.t.secret(d)) {
+                        let _ = info.merge_capability(Capability::Write(s.clone()));
+                    }
+                    r
+                } else {
+                    self.store.as_mut().unwrap().import_namespace(cap)
+                };
                 // keep an open handle's capability in step, as the actor does
                 if let (Ok(iroh_docs::store::ImportNamespaceOutcome::Upgraded), Some(info), Some(s)) =
                     (&res, self.infos.get_mut(&d), self.t.secret(d))
@@ -464,7 +492,8 @@ pub fn gen_history(r: &mut Rng, t: &DocTable, len: usize, file: bool, plant: boo
         let rd = real[r.below(real.len())];
         let op = if x < 12 {
             json!({"op": if r.chance(1,3) {"listimport"} else {"import"}, "authors": r.chance(1,2),
-                   "d": if r.chance(1,2) {rd} else {any}, "kind": if r.chance(1,2) {"write"} else {"read"}})
+                   "d": if r.chance(1,2) {rd} else {any}, "kind": if r.chance(1,2) {"write"} else {"read"},
+                   "via": if r.chance(1,3) {"new_replica"} else {"import_namespace"}})
         } else if x < 24 {
             json!({"op":"open","d": if r.chance(3,4) {rd} else {any}})
         } else if x < 30 {
